@@ -33,7 +33,7 @@ type inst =
   | Arena of acfg * astate ref
   | Stack of scfg * sstate ref
   | Pool of pcfg * pstate ref
-  | Heap of hcfg * hstate ref * hastate ref
+  | Heap of hcfg * hstate ref * hastate ref * bool ref   (* last: the abstract model is still in step *)
   | Aligned of gcfg * gstate ref
 
 let insts : (string, inst) Hashtbl.t = Hashtbl.create 16
@@ -63,7 +63,7 @@ let state_string (i : inst) : string =
       let l = List.map (fun x -> " " ^ dec_of_z x) l in
       let cyc = if List.length l > n then " cycle" else "" in
       (if !s.p_initialized then "1 " else "0 ") ^ poff c.p_base !s.p_head ^ ":" ^ String.concat "" l ^ cyc
-  | Heap (c, s, a) ->
+  | Heap (c, s, a, ok) ->
       let conc =
         if not !s.h_initialized then "uninit"
         else begin
@@ -102,7 +102,7 @@ let state_string (i : inst) : string =
           Buffer.add_string b (Printf.sprintf " %s.0.%s.U" (dec_of_z (zsub (heap_end c) c.h_base)) (poff c.h_base !prev));
           Buffer.contents b
         end in
-      if conc = abst then conc else conc ^ " ABSTRACT-MISMATCH " ^ abst
+      if conc = abst || not !ok then conc else conc ^ " ABSTRACT-MISMATCH " ^ abst
 
 let unres = function HOk a -> a | HPanic -> raise Panic | HFuel -> raise Fuel
 let unopt = function Some a -> a | None -> raise Panic
@@ -114,10 +114,12 @@ let do_alloc (i : inst) (zero : bool) (n : z) : z =
   | Stack (c, s) -> let (s', p) = stack_alloc c !s n in s := s'; p
   | Aligned (c, s) -> let (s', p) = unopt (aligned_alloc c !s n) in s := s'; p
   | Pool (c, s) -> let (s', p) = pool_alloc c !s n in s := s'; p
-  | Heap (c, s, a) ->
+  | Heap (c, s, a, ok) ->
       let (s', p) = unres (hp_alloc c !s n) in
-      let (a', pa) = unres (ha_alloc c !a n) in
-      s := s'; a := a'; if zeq p pa then p else raise (Failure "abstract alloc differs")
+      if !ok then begin
+        let (a', pa) = unres (ha_alloc c !a n) in
+        s := s'; a := a'; if zeq p pa then p else raise (Failure "abstract alloc differs")
+      end else (s := s'; p)
 
 let do_dealloc (i : inst) (p : z) : unit =
   match i with
@@ -125,13 +127,17 @@ let do_dealloc (i : inst) (p : z) : unit =
   | Stack (c, s) -> s := unopt (stack_dealloc c !s p)
   | Aligned (c, s) -> s := unopt (aligned_dealloc c !s p)
   | Pool (c, s) -> s := unopt (pool_dealloc c !s p)
-  | Heap (c, s, a) ->
+  | Heap (c, s, a, ok) ->
+      (* the memory-level model is the one compared with the code; the abstract model only speaks about
+         valid pointers (proved refinement): on an invalid pointer that the cookie test lets through
+         (stale cookie after deallocall) the abstract model panics, and is dropped until the next reset *)
       let s' = hp_dealloc !s p in
-      let a' = ha_dealloc !a p in
+      let a' = if !ok then ha_dealloc !a p else HPanic in
       (match s', a' with
-       | HOk x, HOk y -> s := x; a := y
-       | HPanic, HPanic -> raise Panic
-       | _ -> raise (Failure "abstract dealloc differs"))
+       | HOk x, HOk y when !ok -> s := x; a := y
+       | HOk x, _ -> s := x; ok := false
+       | HPanic, _ -> raise Panic
+       | HFuel, _ -> raise Fuel)
 
 let do_realloc (i : inst) (zero : bool) (p : z) (n : z) (old : z) : z =
   match i with
@@ -139,12 +145,12 @@ let do_realloc (i : inst) (zero : bool) (p : z) (n : z) (old : z) : z =
   | Stack (c, s) -> let (s', q) = unopt (stack_realloc c !s p n old) in s := s'; q
   | Aligned (c, s) -> let (s', q) = unopt (aligned_realloc c !s p n old) in s := s'; q
   | Pool (c, s) -> let (s', q) = unopt (pool_realloc c !s p n old) in s := s'; q
-  | Heap (c, s, a) ->
-      (match hp_realloc c !s p n old, ha_realloc c !a p n old with
-       | HOk (s', q), HOk (a', qa) -> s := s'; a := a'; if zeq q qa then q else raise (Failure "abstract realloc differs")
-       | HPanic, HPanic -> raise Panic
-       | HFuel, _ -> raise Fuel
-       | _ -> raise (Failure "abstract realloc differs"))
+  | Heap (c, s, a, ok) ->
+      (match hp_realloc c !s p n old, (if !ok then ha_realloc c !a p n old else HPanic) with
+       | HOk (s', q), HOk (a', qa) when !ok -> s := s'; a := a'; if zeq q qa then q else raise (Failure "abstract realloc differs")
+       | HOk (s', q), _ -> s := s'; ok := false; q
+       | HPanic, _ -> raise Panic
+       | HFuel, _ -> raise Fuel)
 
 let do_deallocall (i : inst) : unit =
   match i with
@@ -152,7 +158,7 @@ let do_deallocall (i : inst) : unit =
   | Stack (_, s) -> s := stack_deallocall !s
   | Aligned (_, s) -> s := aligned_deallocall !s
   | Pool (c, s) -> s := pool_deallocall c !s
-  | Heap (_, s, a) -> s := hp_deallocall !s; a := ha_deallocall !a
+  | Heap (_, s, a, _) -> s := hp_deallocall !s; a := ha_deallocall !a
 
 let do_reset (i : inst) : unit =
   match i with
@@ -160,11 +166,11 @@ let do_reset (i : inst) : unit =
   | Stack (_, s) -> s := stack_init
   | Aligned (_, s) -> s := aligned_init
   | Pool (_, s) -> s := pool_init
-  | Heap (_, s, a) -> s := heap_init_state; a := ha_init_state
+  | Heap (_, s, a, ok) -> s := heap_init_state; a := ha_init_state; ok := true
 
 let base_of = function
   | Arena (c, _) -> c.a_base | Aligned (c, _) -> c.g_inner.a_base | Stack (c, _) -> c.s_base | Pool (c, _) -> c.p_base
-  | Heap (c, _, _) -> c.h_base
+  | Heap (c, _, _, _) -> c.h_base
 
 let four = z_of_int 4
 let wrap64 (x : z) : z = w64 x
@@ -246,7 +252,7 @@ let () =
           | "stack" -> Stack ({ s_base = g "base"; s_size = g "size"; s_align = g "align" }, ref stack_init)
           | "pool" -> Pool ({ p_base = g "base"; p_chunk = g "chunk"; p_count = g "count" }, ref pool_init)
           | "aligned" -> Aligned ({ g_inner = { a_base = g "base"; a_size = g "size"; a_align = g "ialign" }; g_align = g "align" }, ref aligned_init)
-          | "heap" -> Heap ({ h_base = g "base"; h_size = g "size" }, ref heap_init_state, ref ha_init_state)
+          | "heap" -> Heap ({ h_base = g "base"; h_size = g "size" }, ref heap_init_state, ref ha_init_state, ref true)
           | _ -> failwith "kind" in
         Hashtbl.replace insts name i
     | name :: op :: args ->
